@@ -586,7 +586,8 @@ def indexed_column_behind_lookup(cell, cells, formulas):
       if n in seen: continue
       seen.add(n)
       for f in by_name.get(n, ()):
-        if n != x and ("lookupRecords" in f or "lookupOne" in f): return True
+        # (PREVIOUS / NEXT / RANK / .find are sorted lookups too)
+        if n != x and re.search(r"lookupRecords|lookupOne|PREVIOUS\(|NEXT\(|RANK\(|\.find\.", f): return True
         todo.extend(words(f))
     return False
   def is_x(col):
